@@ -223,6 +223,13 @@ def _priors(node):
     return result
 
 
+def _running(node) -> set:
+    '''targets of this node that were released and have not reported back'''
+    if node.get('running') is None:
+        node.set('running', set())
+    return node.get('running')
+
+
 def _to_name(m):
     result = []
     for ak in m:
@@ -278,10 +285,14 @@ def complete(job, runid, target, timing, status):
 
     if target == '__all__':
         job.get('doing').clear()
-    elif target in job.get('doing'):
-        job.get('doing').remove(target)
+        _running(job).clear()
+    else:
+        _running(job).discard(target)
 
-    if not (job.get('todo') or job.get('doing')):
+        if target in job.get('doing'):
+            job.get('doing').remove(target)
+
+    if not (job.get('todo') or job.get('doing') or _running(job)):
         que.remove(job)
         job.set('status', State.waiting)
         pass
@@ -403,22 +414,23 @@ def next_job_batch():
         for job in filter(lambda j: j.get('todo'), que):
             available = job.get('todo').copy()
             # a target of this job that is still executing is not released
-            # a second time until its current run completes
-            for target in job.get('doing'):
+            # a second time until its current run completes; a purge takes the
+            # target out of doing even while it runs, so ask running as well
+            for target in job.get('doing') | _running(job):
                 available.discard(target)
             for dep in jobs.keys() & job.get('ancestry'):
                 for target in job.get('todo'):
                     dependency = find(dep)
+                    busy = dependency.get('doing') | _running(dependency)
 
                     if (
                         target == '__all__'
                         or '__all__' in dependency.get('todo')
-                        or '__all__' in dependency.get('doing')
+                        or '__all__' in busy
                     ):
                         available.clear()
                     if (
-                        target in dependency.get('todo')
-                        or target in dependency.get('doing')
+                        target in dependency.get('todo') or target in busy
                     ) and target in available:
                         available.remove(target)
                     pass
@@ -427,6 +439,7 @@ def next_job_batch():
                 job.get('todo').remove(a)
             job.get('do').update(available)
             job.get('doing').update(available)
+            _running(job).update(available)
 
             if available:
                 todo.append(job)
@@ -490,7 +503,10 @@ def organize(
     # only jobs with something to do belong in the queue (there may be no
     # targets to work on yet)
     dawgie.pl.schedule.que = sorted(
-        filter(lambda j: j.get('todo') or j.get('doing'), jobs.values()),
+        filter(
+            lambda j: j.get('todo') or j.get('doing') or j.get('running'),
+            jobs.values(),
+        ),
         key=lambda i: i.get('level'),
     )
     return
@@ -526,30 +542,23 @@ def periodics(factories):
     return
 
 
-def purge(node: dawgie.pl.dag.Node, target: str, executing: set = None):
-    # nodes that were running the target when it was withdrawn; a node can be
-    # reached over several paths so remember them for the whole walk
-    executing = set() if executing is None else executing
-
+def purge(node: dawgie.pl.dag.Node, target: str):
     if target in node.get('do', []):
         node.get('do').remove(target)
     if target in node.get('doing', []):
         node.get('doing').remove(target)
-        executing.add(node.tag)
     if target in node.get('todo', []):
         node.get('todo').remove(target)
 
     for child in node:
-        purge(child, target, executing)
+        purge(child, target)
 
     # a job left with nothing to do must not linger in the queue because it
     # would block its descendants and keep the queue from ever being empty;
-    # one that was running the target stays until its worker answers so that
+    # one with a unit still running stays until its worker answers so that
     # complete() still finds it and records the outcome
-    if (
-        node in que
-        and node.tag not in executing
-        and not (node.get('todo') or node.get('doing'))
+    if node in que and not (
+        node.get('todo') or node.get('doing') or node.get('running')
     ):
         que.remove(node)
         node.set('status', State.waiting)
